@@ -5,7 +5,7 @@
 From Coq Require Import List NArith Bool.
 From FS Require Import Sx Model.Path Model.Stat Model.Validator Model.Hardlinks Model.Diff Model.AbsDest
   Model.Codec Model.MetaBuffer Model.Listing Model.Converge Model.ConvergeA Model.MetaOnly Model.MetaTransfer
-  Proofs.ValidatorP Proofs.MetaOnlyP Proofs.MetaTransferP.
+  Proofs.ValidatorP Proofs.MetaOnlyP Proofs.MetaRewriteP Proofs.MetaTransferP.
 From FS Require Proofs.ConvergeP Proofs.ReceiveP.
 From FSGen Require FromSource.
 Import ListNotations.
@@ -192,6 +192,40 @@ Theorem meta_req_ids : forall sel (H : bytes -> bytes) (hdr : stat -> bytes) d A
   = map Some (positions_from 0 (wanted sel d (map fst A)) (map fst B)).
 Proof. exact meta_req_ids_proof. Qed.
 
+
+(* ================= selectors that write into the stat they are handed =================
+   r.metadataOnly(path, p.Stat) receives the live *types.Stat after the record was framed.
+   [meta_recv_rw sel rw stats] (Model/MetaOnly.v): sel = the decision (on the stat as announced),
+   rw = the stat as the selector leaves it, [seen rw s] = rw s with the path restored
+   ("p.Stat.Path = path") = what the rest of the loop, the diff and the disk writer work with.
+   The listing is the announced sequence minus the listing name — whatever the selector writes. *)
+Theorem listing_exact_rw : forall sel rw stats,
+  r_listing (meta_recv_rw sel rw stats) = filter (fun s => negb (bytes_eqb (st_path s) listing_name)) stats.
+Proof. exact listing_exact_rw_proof. Qed.
+
+(* What the edits DO influence: registrations (fileCanRequestData on the edited mode) and the
+   forwarded entries are those of the pure transcript on the sequence as the selector left it,
+   for every sel' that decides on the rewritten stat as sel did on the announced one (any
+   selector that looks at the path only: sel' = sel) — so ids_aligned, ids_only_selected,
+   ids_complete, forwarded_exact, stack_exact, forwarded_valid and the compositions above apply to
+   [map (seen rw) stats]. *)
+Theorem rewrite_sim : forall sel rw sel' stats,
+  (forall s, In s stats -> sel' (seen rw s) = sel s) ->
+  r_files (meta_recv_rw sel rw stats) = r_files (meta_recv sel' (map (seen rw) stats)) /\
+  r_forwarded (meta_recv_rw sel rw stats) = r_forwarded (meta_recv sel' (map (seen rw) stats)).
+Proof. exact rewrite_sim_proof. Qed.
+
+Theorem forwarded_exact_rw : forall sel rw sel' stats,
+  (forall s, In s stats -> sel' (seen rw s) = sel s) ->
+  valid_stream (map (seen rw) (recv_stream stats)) ->
+  r_forwarded (meta_recv_rw sel rw stats)
+  = filter (needed sel' (map (seen rw) (recv_stream stats))) (map (seen rw) (recv_stream stats)).
+Proof. exact forwarded_exact_rw_proof. Qed.
+
+(* a pure predicate: the transcript of all theorems above *)
+Theorem pure_selector : forall sel stats, meta_recv_rw sel (fun s => s) stats = meta_recv sel stats.
+Proof. exact pure_selector_proof. Qed.
+
 Print Assumptions listing_exact.
 Print Assumptions ids_aligned.
 Print Assumptions ids_only_selected.
@@ -211,6 +245,10 @@ Print Assumptions registered_content.
 Print Assumptions projection_wf.
 Print Assumptions meta_transfer_converges.
 Print Assumptions meta_req_ids.
+Print Assumptions listing_exact_rw.
+Print Assumptions rewrite_sim.
+Print Assumptions forwarded_exact_rw.
+Print Assumptions pure_selector.
 
 (* ---- source-derived obligations (regenerated from /repo on every run) ---- *)
 Example from_source_listing_name : FromSource.metadata_path = listing_name.
@@ -317,6 +355,24 @@ Example ex_transfer :
   /\ req_ids (r_files (meta_recv ex_sel2 (map fst ex_B))) (ds_reqs r) = [Some 3%nat]
   /\ positions_from 0 (wanted ex_sel2 DMetadata (map fst ex_A)) (map fst ex_B) = [3%nat]
   /\ converged_o false ex_A ex_B (view_of (ds_map r)) = false.
+Proof. vm_compute. repeat split; reflexivity. Qed.
+
+(* a selector that normalises uid/gid/mtime of everything, chmods go-rwx what it selects (harness
+   kind 5) — or scribbles over the path (kind 6): the listing still holds the 8 stats as announced;
+   what is forwarded carries the edits (uid 12, a/b/c 0644 -> 0600, the unselected ancestor a keeps
+   its mode), under the announced paths *)
+Example ex_writing_selector :
+  let rw5 := fun s => rw_of 5 (ex_sel s) s in
+  let rw6 := fun s => rw_of 6 (ex_sel s) s in
+  r_listing (meta_recv_rw ex_sel rw5 ex_stream) = recv_stream ex_stream
+  /\ map (fun s => (st_path s, st_uid s, st_mode s)) (r_forwarded (meta_recv_rw ex_sel rw5 ex_stream))
+     = [([A], 12, ModeDir); ([A;47;B], 12, ModeDir); ([A;47;B;47;C], 12, 384); ([A;47;D], 12, ModeDir);
+        ([A;47;D;47;A], 12, 384)]
+  /\ r_files (meta_recv_rw ex_sel rw5 ex_stream) = r_files (meta_recv ex_sel ex_stream)
+  /\ st_path (rw6 (mkst [A] ModeDir [])) = [120]
+  /\ r_listing (meta_recv_rw ex_sel rw6 ex_stream) = recv_stream ex_stream
+  /\ map st_path (r_forwarded (meta_recv_rw ex_sel rw6 ex_stream)) = map st_path (r_forwarded (meta_recv ex_sel ex_stream))
+  /\ stat_eqb (hd (mkst [] 0 []) (r_forwarded (meta_recv_rw ex_sel rw6 ex_stream))) (mkst [A] ModeDir []) = false.
 Proof. vm_compute. repeat split; reflexivity. Qed.
 
 (* ---- the corner the hypothesis [valid_stream (recv_stream stats)] excludes (finding
